@@ -189,6 +189,37 @@ func main() {
 			evs := callEvents(f, fd.Body, []string{"bytespool.AcquireLen", "unsafe.Slice", "clear"}, nil)
 			e.Strs("inverserSliceOrder", sorted(evs), "frac/inverser.go getSlice: the pooled buffer is zeroed before newInverser fills it (0 = LID not in the reader's mapping)")
 		}
+		if f, err := r.Load("fracmanager/fetcher.go"); err != nil {
+			e.Missing("fetchArrangeGuards", err)
+		} else if fd := f.Func("Fetcher", "FetchDocs"); fd == nil {
+			e.Missing("fetchArrangeGuards", "Fetcher.FetchDocs not found")
+		} else {
+			// every assignment into result[...]: the condition of the innermost enclosing if ("" when unguarded)
+			var guards []ev
+			var walk func(n ast.Node, guard string)
+			walk = func(n ast.Node, guard string) {
+				ast.Inspect(n, func(x ast.Node) bool {
+					switch st := x.(type) {
+					case *ast.IfStmt:
+						if x == n {
+							return true
+						}
+						walk(st.Body, f.Render(st.Cond))
+						if st.Else != nil {
+							walk(st.Else, "else of "+f.Render(st.Cond))
+						}
+						return false
+					case *ast.AssignStmt:
+						if len(st.Lhs) == 1 && strings.HasPrefix(f.Render(st.Lhs[0]), "result[") {
+							guards = append(guards, ev{st.Pos(), guard})
+						}
+					}
+					return true
+				})
+			}
+			walk(fd.Body, "")
+			e.Strs("fetchArrangeGuards", sorted(guards), "Fetcher.FetchDocs: condition guarding each write into the result slots (arrange step)")
+		}
 		if f, err := r.Load("storeapi/client.go"); err != nil {
 			e.Missing("inMemoryBulkOrder", err)
 		} else if fd := f.Func("inMemoryAPIClient", "Bulk"); fd == nil {
@@ -389,5 +420,5 @@ func main() {
 			e.Bool("trySetClearsUnlessSealing", total == 2 && inside == 2 && sealingDef,
 				"trySetSuicided: `sealing := f.isSealingState()` and the only field writes are sealed=nil, active=nil under `if !sealing`")
 		}
-	}, "frac/active_indexer.go", "frac/active_index.go", "frac/active.go", "frac/active_token_list.go", "frac/inverser.go", "storeapi/client.go", "proxy/bulk/indexer.go", "fracmanager/proxy_frac.go")
+	}, "frac/active_indexer.go", "frac/active_index.go", "frac/active.go", "frac/active_token_list.go", "frac/inverser.go", "fracmanager/fetcher.go", "storeapi/client.go", "proxy/bulk/indexer.go", "fracmanager/proxy_frac.go")
 }
